@@ -14,6 +14,8 @@ fn sys(i: u8) -> SystemCommand { SystemCommand(ent(i as u32)) }
 /// same relative order; flag set during the run and clear after it.  Because the post-state is again "any
 /// pending list", the step covers histories of any length and any interleaving with further prepare() calls.
 #[kani::proof]
+#[kani::stub(core::any::TypeId::of, crate::vh::stub_typeid_of)]
+#[kani::stub(<core::any::TypeId as crate::vh::PEq>::eq, crate::vh::stub_typeid_eq)]
 #[kani::unwind(8)]
 fn evt_tracker_step()
 {
@@ -66,6 +68,8 @@ fn evt_tracker_step()
 /// with two deliveries for system 2, payload ids symbolic: successive runs of system 1 see them in the order sent,
 /// system 2's entries are untouched by system 1's runs.
 #[kani::proof]
+#[kani::stub(core::any::TypeId::of, crate::vh::stub_typeid_of)]
+#[kani::stub(<core::any::TypeId as crate::vh::PEq>::eq, crate::vh::stub_typeid_eq)]
 #[kani::unwind(8)]
 fn evt_tracker_drain3()
 {
@@ -91,6 +95,8 @@ fn evt_tracker_drain3()
 
 /// Vacuity twin: must FAIL (reachability witness for the harnesses above).
 #[kani::proof]
+#[kani::stub(core::any::TypeId::of, crate::vh::stub_typeid_of)]
+#[kani::stub(<core::any::TypeId as crate::vh::PEq>::eq, crate::vh::stub_typeid_eq)]
 #[kani::unwind(8)]
 fn evt_tracker_witness()
 {
